@@ -267,6 +267,18 @@ ROUND9 = {
     "C18": " R-C18-NULL: the optional result of InverseSqrt2exp is consumed untested only where n % 8 == 1 and k >= 3 are known; R-C18-ALIGN also carries the index maps of the per-curve ECDSA checks; R-C18-DEFINED reports names that resolve neither locally, in the module nor in the builtins.",
     "C19": " R-C19-LINALG: a row moved away from a zero pivot is re-inserted at the last active position (bound - 1).",
 }
+ROUND10 = {
+    "C05": " R-C05-HW: the Hamming-weight search starts from (1, 1) at a bit position for which the documented invariant holds at every modulus length (evaluated as a term of bit_length(n)); thresholds found by role.",
+    "C07": " R-C07-NEIGHBOUR also carries the grouping of issuer keys by curve type and point (R-C16-ISSUER).",
+    "C08": " R-C08-FEED also carries the truncation rows of C09; R-C08-OWN the key / flag alignment rows of C02 for the ECDSA checks.",
+    "C09": " The truncation is decided under every relative order of the symbolic operands (a dependence on the hash value is seen); Hex2Bytes by value (the text itself is decoded).",
+    "C14": " A true division of an unbounded power inside a closed form (float) is a violation.",
+    "C16": " R-C16-ISSUER: the issuer map is keyed by curve type and point; R-C16-ONCE also carries BatchGCD's one entry per input.",
+    "C17": " R-C17-BYVALUE also carries the issuer-key grouping; R-C17-CACHE the adjacency of the giant-step windows for the requested table size.",
+    "C18": " R-C18-ALIGN also carries the reader / writer agreement of the recorded factor set (ValueError on a second AttachFactors otherwise).",
+}
+for _pid, _extra in ROUND10.items():
+  ROUND9[_pid] = ROUND9.get(_pid, "") + _extra
 for _pid, _extra in ROUND9.items():
   ROUND8[_pid] = ROUND8.get(_pid, "") + _extra
 for _pid, _extra in ROUND8.items():
